@@ -306,6 +306,25 @@ def extras(viols, outcomes, samples):
                                 route="local-delta", id="4", expected="FLOW_CONTROL_ERROR",
                                 got=(code_class(o.code) if o.kind == "raise" and o.is_proto else "accepted")))
             outcomes["local-delta-boundary"] = outcomes.get("local-delta-boundary", 0) + 1
+        # the same stream window reached another way: raised by one byte by hand, one byte of DATA received and not yet
+        # acknowledged (the window is 65535 again, the automatic-update target one more): the largest value is still in range
+        h = H.Solo(client)
+        h.rx([wire.settings([], ack=True)])
+        if client:
+            h.api("send_headers", 1, H.ni(H.REQ_POST))
+            h.rx([wire.headers(1, H.stateless_block(H.RESP))], ("headers", 1, False, False))
+        else:
+            h.rx([wire.headers(1, H.stateless_block(H.REQ_POST))], ("headers", 1, False, False))
+        for o in (h.api("increment_flow_control_window", 1, stream_id=1), h.rx([wire.data(1, b"x")], ("data", 1, False))):
+            assert o.kind == "ok", o.brief()
+        conn = h.conn
+        o1 = H.call(conn, "update_settings", {4: 2 ** 31 - 1})
+        o = H.recv(conn, wire.settings([], ack=True).serialize())
+        n += 1
+        if o1.kind != "ok" or o.kind != "ok":
+            viols.append(_v("valid-setting-rejected", "local IWS=2^31-1 acknowledged with a stream window of 65535 (raised by 1, 1 byte received): %s / %s" % (
+                o1.brief(), o.brief()), route="local-delta", id="4", got=o.exc_name or o1.exc_name))
+        outcomes["local-delta-boundary"] = outcomes.get("local-delta-boundary", 0) + 1
     return n, n
 
 
